@@ -264,7 +264,22 @@ def c20(run):
         "down to coap_print_link is end - cursor of the current cursor (R-OUT-BOUND).")
 
 
+def c19(run):
+    from rules import r_route
+    P = run.prog('rel')
+    r_route.run(run, P)
+    run.min_instances('R-ROUTE', 8)
+    run.assumptions = ASSUME_COMMON + ["credential acceptance happens inside GnuTLS (gnutls_handshake returns GNUTLS_E_SUCCESS only for credentials both sides accept)",
+                                       "handshake schedules and NACK-once for queued requests are NOT decided"]
+    return run.finish(
+        "Routing/gating decided structurally: cleartext datagram processing (coap_handle_dgram) is entered only for UDP sessions or from the TLS "
+        "back end inside 'established' with a positive record-read result; the established flag is set only on the GNUTLS_E_SUCCESS arm of "
+        "gnutls_handshake's result and do_gnutls_handshake returns 1 only there; coap_session_connected and record I/O in the back end happen only "
+        "after that; coap_send_pdu transmits only with session->state == ESTABLISHED (R-ROUTE).")
+
+
 PROPS = {
+    'C19': c19,
     'C20': c20,
     'C09': c09,
     'C10': c10,
